@@ -73,7 +73,7 @@ impl Stream for SplitPrograms
 	}
 	fn count(&self, tier: Tier) -> u64
 	{
-		tier.pick(500, 12_000)
+		tier.pick(1200, 12_000)
 	}
 	fn choice_len(&self) -> usize
 	{
@@ -216,7 +216,7 @@ impl Stream for Negative
 	}
 	fn count(&self, tier: Tier) -> u64
 	{
-		tier.pick(600, 15_000)
+		tier.pick(2500, 15_000)
 	}
 	fn choice_len(&self) -> usize
 	{
@@ -330,7 +330,7 @@ impl Stream for Histories
 	}
 	fn count(&self, tier: Tier) -> u64
 	{
-		tier.pick(300, 8_000)
+		tier.pick(800, 8_000)
 	}
 	fn choice_len(&self) -> usize
 	{
